@@ -13,7 +13,7 @@ from schema import (HAND, emit_schema, F_MULTI, F_TITLE, F_LIST, o_int, o_float,
 SCHEMA = [
     o_int("a", 1), o_str("s", "sd"), o_list("int", "l", "{1, 2}"), o_float("f", "0.5"),
     o_sec("sec", [o_int("x", 7), o_str("y", "why")], F_MULTI | F_TITLE), o_sec("single", [o_int("x", 7)]),
-    o_func("include", "include"), o_func("fn"), o_int("dep", 1, 512), o_list("str", "depl", "{x}", 512 | 1024),
+    o_func("include", "include"), o_func("fn"), o_func("nest", "nest"), o_int("dep", 1, 512), o_list("str", "depl", "{x}", 512 | 1024),
     # sacrificial options: only aborting texts mention them; the comparison ignores them
     o_int("zi", 0), o_float("zf", "0"), o_str("zs", "z"), o_list("str", "zl", None),
 ]
@@ -97,7 +97,9 @@ class C08:
             "10-deep include chain, LONG_MAX, texts ending in each quoting state, a failing and a plain text); differential "
             "oracle: the same history with every aborting parse removed, run in a fresh process, must give identical return "
             "codes, diagnostics (file, line, count), callback invocations and trees (sacrificial options ignored) for every remaining parse and "
-            "every probe. Non-trivial = history with >= 1 aborting parse; distinct = distinct histories" % (len(EVENTS), len(PROBES)))
+            "every probe. In addition six directed texts in which a function callback parses into the other live context while the outer parse is "
+            "inside an included file / a section: outer result, diagnostics and tree must equal those of the twin text with a plain "
+            "function in that place. Non-trivial = history with >= 1 aborting parse; distinct = distinct histories" % (len(EVENTS), len(PROBES)))
     assumptions = ["aborting texts only mention sacrificial options (an aborted parse may leave earlier items applied)",
                    "each run is a fresh child process of the fork server (the scanner has never run in it)"]
 
@@ -206,7 +208,65 @@ class C08:
             C08._alone[ctx] = out
         return C08._alone[ctx]
 
+    # a parse into another live context from inside a callback: the outer parse must not notice ---------------------------
+    NESTED = [
+        # (main text, included files) with nest(2, <text for context 2>) somewhere; the twin has fn(...) there instead
+        ("a = 2\nnest(2, \"a = 7\")\ns = after\nl += 5\n", {}),
+        ("include(\"c08_n1.conf\")\nl += 5\nzz_error = 1\n", {"c08_n1.conf": "a = 3\nnest(2, \"a = 7\")\ns = inner\nsec t { x = 2 }\n"}),
+        ("include(\"c08_n1.conf\")\nl += 5\n", {"c08_n1.conf": "a = 3\ninclude(\"c08_n2.conf\")\ns = mid\n", "c08_n2.conf": "f = 2.5\nnest(2, \"s = x\\nsec q { }\")\nsec t { x = 2 }\nl += 6\n"}),
+        ("include(\"c08_n1.conf\")\ns = last\n", {"c08_n1.conf": "nest(2, \"include(\\\"c08_n2.conf\\\")\")\na = 4\nl += 7\n", "c08_n2.conf": "f = 1.5\n"}),
+        ("include(\"c08_n1.conf\")\ns = last\n", {"c08_n1.conf": "a = 4\nnest(2, \"zs = 'unterminated\")\nl += 7\nsingle { x = 3 }\n"}),
+        ("single {\n x = 4\n nest(2, \"a = 1\")\n}\ninclude(\"c08_n1.conf\")\n", {"c08_n1.conf": "sec u {\n nest(2, \"zzz\")\n y = in\n}\na = 9\n"}),
+    ]
+
+    def check_nested(self, case, get_ex):
+        main, files = self.NESTED[case["nested"]]
+        fx = fixture_dir()
+        base = os.path.join(fx, "c08n")
+        res = []
+        for twin in (False, True):
+            s = Script()
+            emit_schema(s, 0, SCHEMA)
+            s.add("mkdir", hx(base))
+            s.add("cwd", hx(base))
+            for n, c in files.items():
+                s.add("mkfile", hx(os.path.join(base, n)), hx(c.replace("nest(", "fn(") if twin else c))
+            s.add("init", 1, 0, 0)
+            s.add("init", 2, 0, 0)
+            ip = s.add("parse_buf", 1, hx(main.replace("nest(", "fn(") if twin else main))
+            idd = s.add("dump", 1)
+            ip2 = s.add("parse_buf", 1, hx(PROBES[0]))
+            s.add("free", 1)
+            s.add("free", 2)
+            ia = s.add("allocstat")
+            r = get_ex("asan", 10).run(s)
+            res.append((r, by_index(r.trace), ip, idd, ip2, ia))
+        (r1, t1, ip, idd, ip2, ia), (r2, t2, jp, jdd, jp2, ja) = res
+        cl = ["nested-parse"]
+        sample = {"main": main, "files": files}
+        if not r2.clean:
+            return Outcome(failure=Failure("reference-run-died/%s" % r2.death(), r2.stderr.decode("latin-1")[:1200]), classes=cl, nontrivial=True, sample=sample)
+        if not r1.clean:
+            return Outcome(failure=Failure("die/%s/nested-parse" % r1.death(), r1.stderr.decode("latin-1")[:1500]), classes=cl, nontrivial=True, sample=sample)
+        fail = None
+        for a, b, what in ((t1[ip], t2[jp], "outer parse"), (t1[ip2], t2[jp2], "next parse")):
+            da, db = [(f, l) for f, l, m in unhex_diag(a)], [(f, l) for f, l, m in unhex_diag(b)]
+            ca = [(c["k"], c["opt"]) for c in a.get("cb", []) if c["opt"] != hx("nest")[1:]]
+            cb = [(c["k"], c["opt"]) for c in b.get("cb", []) if c["opt"] != hx("fn")[1:] or True]
+            if a["rc"] != b["rc"] or da != db:
+                fail = Failure("nested-parse/%s-differs" % what.split(" ")[0], "%s: rc %d diagnostics %r; with a plain function instead of the nested parse: rc %d %r\nmain %r files %r" % (
+                    what, a["rc"], unhex_diag(a), b["rc"], unhex_diag(b), main, files))
+                break
+        if fail is None and strip(t1[idd]["tree"]) != strip(t2[jdd]["tree"]):
+            fail = Failure("nested-parse/tree-differs", "the outer context differs from the run with a plain function instead of the nested parse\n%r\nvs\n%r\nmain %r files %r" % (
+                strip(t1[idd]["tree"]), strip(t2[jdd]["tree"]), main, files))
+        if fail is None and (t1[ia]["incptr"] != 0 or t1[ia]["streams"] != 0 or t1[ia]["live"] != 0):
+            fail = Failure("left-behind/nested-parse", "at the end include depth %d, open streams %d, live blocks %d" % (t1[ia]["incptr"], t1[ia]["streams"], t1[ia]["live"]))
+        return Outcome(classes=cl, nontrivial=True, failure=fail, sample=sample)
+
     def check_case(self, case, get_ex):
+        if "nested" in case:
+            return self.check_nested(case, get_ex)
         events = [EVENTS[k] for k in case["history"]]
         ref = [e for e in events if e[1] not in ("abort", "abort-fail")]
         s1, o1, a1 = self.script(events)
@@ -272,6 +332,7 @@ class C08:
         for d in range(0, depth + 1):
             for h in itertools.product(range(len(EVENTS)), repeat=d):
                 cases.append({"history": list(h)})
+        r.run_cases([{"nested": k} for k in range(len(self.NESTED))], chunksize=1)
         r.run_cases(cases, chunksize=20)
         r.exhaustive = True
         r.run_hypothesis(2500 if r.tier == "quick" else 60000)
